@@ -42,6 +42,7 @@ SIM_NOTE = "the in-memory network and the synchronous scheduling of handler call
 CHECKS["C02"] = {
     "subs": [{"pkg": "sim", "test": "TestKnownF3", "quick": 1, "thorough": 1, "shards": 1},
              {"pkg": "sim", "test": "TestC02Relay", "quick": 8000, "thorough": 80000, "shards_quick": 4, "shards_thorough": 8},
+             {"pkg": "sim", "test": "TestC02Stream", "quick": 1200, "thorough": 40000, "shards_quick": 4, "shards_thorough": 16},
              {"pkg": "sim", "test": "TestC02", "quick": 8000, "thorough": 200000, "shards_quick": 8, "shards_thorough": 16, "timeout_thorough": 7200}],
     "engine": "SIM",
     "level_text": "Deterministic-simulation property test: generated histories over 2-4 real gossip nodes and a generated network (loss, duplication, reordering, partitions, truncating packet limits); after every step each observer's view is checked against the owner's recorded write history. Exploration only.",
@@ -150,6 +151,7 @@ CHECKS["C08"] = {
     "subs": [
         {"pkg": "sys", "test": "TestRegressD3", "quick": 1, "thorough": 1, "shards": 1},
         {"pkg": "sys", "test": "TestRegressD6", "quick": 1, "thorough": 1, "shards": 1},
+        {"pkg": "sys", "test": "TestRegressD8", "quick": 1, "thorough": 1, "shards": 1},
         {"pkg": "sys", "test": "TestC08Transparency", "quick": 120, "thorough": 15000, "shards_quick": 8, "shards_thorough": 12, "shrinktime": "10s", "timeout_quick": 900, "timeout_thorough": 7200},
         {"pkg": "sys", "test": "TestC08Failures", "quick": 80, "thorough": 8000, "shards_quick": 8, "shards_thorough": 12, "shrinktime": "10s", "timeout_quick": 900, "timeout_thorough": 7200},
     ],
